@@ -808,3 +808,6 @@ func verifWorkerID[K comparable, V any](c *Cache[K, V], s *shard[K, V]) int {
 	}
 	return 1999
 }
+
+// VerifYield lets a harness thread park at a point of its own (0 = operation boundary).
+func VerifYield(point int) { verifYield(point) }
